@@ -27,6 +27,7 @@ type twCfg struct {
 	MaxL   int    `json:"max_len"`
 	Eager  bool   `json:"eager_feed"`
 	Unit   string `json:"time_unit,omitempty"` // "" = ms; "ss": the ts column holds seconds; "ns": nanoseconds
+	Form       string `json:"size_form,omitempty"` // "int": sizes written as bare numbers of seconds, "str-int": as quoted numbers
 	NoSentinel bool `json:"no_sentinel,omitempty"` // the stream simply stops: what the last watermark has passed must be out by quiescence
 	LateMs int64  `json:"allowed_lateness_ms,omitempty"` // ALLOWEDLATENESS; only arrival sequences without a late-on-arrival row are run (late updates are C02's subject)
 	GapMs  int64  `json:"gap_ms,omitempty"`    // the second half of the stream (and the sentinel) lies this much later in event time
@@ -83,6 +84,18 @@ func twSQL(c twCfg) string {
 	win := fmt.Sprintf("TumblingWindow('%dms')", c.SizeMs)
 	if c.Kind == "sliding" {
 		win = fmt.Sprintf("SlidingWindow('%dms','%dms')", c.SizeMs, c.Slide)
+	}
+	switch c.Form {
+	case "int":
+		win = fmt.Sprintf("TumblingWindow(%d)", c.SizeMs/1000)
+		if c.Kind == "sliding" {
+			win = fmt.Sprintf("SlidingWindow(%d, %d)", c.SizeMs/1000, c.Slide/1000)
+		}
+	case "str-int":
+		win = fmt.Sprintf("TumblingWindow('%d')", c.SizeMs/1000)
+		if c.Kind == "sliding" {
+			win = fmt.Sprintf("SlidingWindow('%d', '%ds')", c.SizeMs/1000, c.Slide/1000)
+		}
 	}
 	unit := "ms"
 	if c.Unit != "" {
@@ -330,6 +343,7 @@ func twConfigs(kind, tier string) []twCfg {
 		for _, eager := range []bool{false, true} {
 			out = append(out, twCfg{Kind: kind, SizeMs: 2000, OOOMs: 0, Keys: 1, MaxL: maxL, Eager: eager, NoSentinel: true}, twCfg{Kind: kind, SizeMs: 1500, OOOMs: 500, Keys: 1, MaxL: maxL, Eager: eager, NoSentinel: true})
 		}
+		out = append(out, twCfg{Kind: kind, SizeMs: 2000, OOOMs: 1000, Keys: 1, MaxL: maxL - 1, Eager: true, Form: "int"}, twCfg{Kind: kind, SizeMs: 2000, OOOMs: 0, Keys: 1, MaxL: maxL - 1, Eager: false, Form: "str-int"})
 		// ALLOWEDLATENESS shorter and longer than the window, on-time rows only: the first firing is what it is without it
 		for _, late := range []int64{200, 1000, 3000} {
 			out = append(out, twCfg{Kind: kind, SizeMs: 2000, OOOMs: 0, Keys: 1, MaxL: maxL, Eager: true, LateMs: late}, twCfg{Kind: kind, SizeMs: 2000, OOOMs: 1000, Keys: 1, MaxL: maxL, Eager: false, LateMs: late})
@@ -370,6 +384,7 @@ func twConfigs(kind, tier string) []twCfg {
 	for _, late := range []int64{200, 3000} {
 		out = append(out, twCfg{Kind: kind, SizeMs: 4000, Slide: 2000, OOOMs: 0, Keys: 1, MaxL: maxL, Eager: true, LateMs: late}, twCfg{Kind: kind, SizeMs: 4000, Slide: 2000, OOOMs: 1000, Keys: 1, MaxL: maxL, Eager: false, LateMs: late})
 	}
+	out = append(out, twCfg{Kind: kind, SizeMs: 4000, Slide: 2000, OOOMs: 1000, Keys: 1, MaxL: maxL - 1, Eager: true, Form: "int"}, twCfg{Kind: kind, SizeMs: 4000, Slide: 2000, OOOMs: 0, Keys: 1, MaxL: maxL - 1, Eager: false, Form: "str-int"})
 	// no sentinel: the last row's watermark passes some interval ends and then the stream is silent
 	for _, ss := range [][2]int64{{2500, 1000}, {3000, 2000}} {
 		for _, eager := range []bool{false, true} {
